@@ -139,6 +139,18 @@ def documents(tier):
         yield f'two message elements {a},{b}', E('mos', E('messageID', text='5'), ea_(a), ea_(b))
     yield 'two roDelete', E('mos', E('roDelete'), E('roDelete', E('roID', text='r')))
     yield 'unicode', E('mos', E('mosID', text='Ünï ☃ 𝄞'), E('roDelete', E('roID', text='ρο-ID')))
+    # XML namespaces: an element in a namespace is NOT the MOS element of the same local name (MOS has no namespace)
+    N = '{urn:example:other}'
+    yield 'namespaced: default xmlns on the whole document', E(N + 'mos', E(N + 'mosID', text='m'), E(N + 'messageID', text='5'), E(N + 'roDelete', E(N + 'roID', text='r')))
+    yield 'namespaced: prefixed roCreate only', E('mos', E('messageID', text='5'), E(N + 'roCreate', E('roID', text='r'), E('roSlug', text='s')))
+    yield 'namespaced: prefixed roStorySend only', E('mos', E(N + 'roStorySend', E('roID', text='r'), E('storyID', text='A'), E('storyBody')))
+    yield 'namespaced: foreign roCreate next to a real roDelete', E('mos', E(N + 'roCreate', E('roID', text='r')), E('roDelete', E('roID', text='r')))
+    yield 'namespaced: real roStoryAppend next to a foreign roElementAction', E('mos', E(N + 'roElementAction', E('roID', text='r'), attrs={'operation': 'MOVE'}), E('roStoryAppend', E('roID', text='r')))
+    yield 'namespaced: prefixed roElementAction only', E('mos', E(N + 'roElementAction', E('roID', text='r'), E('element_source', E('storyID', text='A')), attrs={'operation': 'DELETE'}))
+    yield 'namespaced: real message, namespaced payload', E('mos', E('roStoryAppend', E('roID', text='r'), E('story', E('storyID', text='A'), E(N + 'roCreate'), E(N + 'vendor', text='v', attrs={N + 'k': 'v'}))))
+    ea_ns = TJ.find(B.ea('MOVE', {'storyID': 'A'}, [B.ids('storyID', ['B'])]), 'roElementAction')
+    ea_ns = [ea_ns[0], ea_ns[1], ea_ns[2], ea_ns[3], [([N + c[0]] + list(c[1:])) if c[0] in ('element_target', 'element_source') else c for c in ea_ns[4]]]
+    yield 'namespaced: roElementAction with foreign element_target/element_source', E('mos', ea_ns)
 
 
 def malformed_texts(rng):
